@@ -54,7 +54,7 @@ class Alt:
 
 
 THROW = object()
-FATAL_KINDS = ('BOUNDS', 'LEDGER', 'LIFETIME', 'TERMINATE', 'UNREACHABLE', 'TRAP', 'BOUND', 'EXC', 'OVERLAP', 'ASSERT', 'RACE-WRITE', 'CLOBBER', 'FOREIGN-ALLOC')
+FATAL_KINDS = ('BOUNDS', 'LEDGER', 'LIFETIME', 'TERMINATE', 'UNREACHABLE', 'TRAP', 'BOUND', 'EXC', 'OVERLAP', 'ASSERT', 'RACE-WRITE', 'FOREIGN-ALLOC')
 
 
 class LazyByte:
@@ -329,7 +329,8 @@ class Executor:
                 base = (r.rid << WIN) + r.slack + off
                 for a, (sz, live) in st.objs.items():
                     if live and a < base + n and base < a + sz:
-                        s.violation(st, 'CLOBBER', f'{what}: bytes of a live object at block offset {a - ((r.rid << WIN) + r.slack)} overwritten from outside its own member functions')
+                        s.record(st, 'CLOBBER', f'{what}: bytes of a live object at block offset {a - ((r.rid << WIN) + r.slack)} overwritten from outside its own member functions', None)
+                        break
 
     def on_heap_access(s, st, r, off, n, is_write):
         pass
@@ -394,7 +395,7 @@ class Executor:
             if not ok: raise PathEnd()
         names = s.stack_names(st)
         inner = next((n for n in reversed(names) if 'cntgs' in n), names[-1] if names else '')
-        key = (kind, aid, inner, msg if kind != 'PROP' else '')
+        key = (kind, aid, inner, msg if kind not in ('PROP', 'CLOBBER') else '')
         if key in s.viol_keys and len(s.violations) >= 1: return
         s.viol_keys.add(key)
         s.violations.append(dict(kind=kind, msg=msg, assert_id=aid, function=inner, stack=names[-6:],
@@ -413,7 +414,7 @@ class Executor:
         if isinstance(cond, int):
             if not cond:
                 s.record(st, kind, msg, None, aid)
-                raise Violation(kind + ": " + msg)
+                if kind in FATAL_KINDS: raise Violation(kind + ": " + msg)
             return
         bad, m = s.sat(st, [z3.Not(cond)], True)
         if bad:
